@@ -666,9 +666,9 @@ var Engine = &core.Engine{
 	},
 	Cases: func(tier string) int {
 		if tier == "thorough" {
-			return 8 * 3000
+			return 8 * 6000
 		}
-		return 8 * 120
+		return 8 * 600
 	},
 	Batch:         func(string) int { return 64 },
 	Run:           run,
